@@ -271,6 +271,8 @@ class _Hint(object):
             return
         x0, x1 = sorted((op['x0'], op['x1']))
         y0, y1 = sorted((op['y0'], op['y1']))
+        if not all(v is None or 0 <= v <= 255 for v in (op.get('fill'), op.get('border'))):
+            return
         if 0 <= x0 < x1 < self.gm[0] and 0 <= y0 < y1 < self.gm[1]:
             if op.get('screen'):
                 self.view = (x1 - x0 + 1, y1 - y0 + 1, self.gm[2], x0, y0)
@@ -379,7 +381,124 @@ def _locate_op(rng, hint):
         op['c'] = None
     if rng.random() < 0.15:
         op['cur'] = rng.choice([0, 1])
+    if rng.random() < 0.3:
+        # run from a stored program with the error trapped (no message on the screen)
+        op['trap'] = True
     return op
+
+
+def _failed_stmt_block(rng, hint):
+    """
+    A statement that fails (LOCATE with each argument legal / illegal / left out), with the cursor at
+    the bottom or top of the scroll area or anywhere, directly followed by a bare line break or more
+    output: a failed statement changes nothing, so the output goes where it would have gone.
+    """
+    w = hint.width
+    ops = []
+    q = rng.random()
+    if q < 0.55:
+        ops.append({'op': 'locate', 'r': 24, 'c': rng.choice([1, 2, w, rng.randint(1, w)]), 'cur': None})
+    elif q < 0.7:
+        ops.append({'op': 'locate', 'r': rng.randint(1, 24), 'c': rng.randint(1, w), 'cur': None})
+    elif q < 0.85:
+        ops.append({'op': 'scrollburst', 'n': rng.randint(20, 30), 's': _plain(rng, rng.randint(0, 5))})
+        if rng.random() < 0.5:
+            ops.append({'op': 'print', 's': _plain(rng, rng.randint(1, 10)), 'end': ';'})
+
+    def arg(legal, illegal):
+        z = rng.random()
+        return rng.choice(legal) if z < 0.4 else (rng.choice(illegal) if z < 0.85 else None)
+    for _ in range(rng.choice([1, 1, 2])):
+        r = arg([1, 24, 25, 25, rng.randint(1, 25)], [0, 26, 255, 256, -1, 25 + rng.randint(1, 50)])
+        col = arg([1, w, rng.randint(1, w)], [0, w + 1, 99, 255, 256, -1])
+        if r is None and col is None:
+            col = w + 1
+        ops.append({'op': 'locate', 'r': r, 'c': col, 'cur': rng.choice([None, None, 0, 1]), 'trap': rng.random() < 0.7})
+    z = rng.random()
+    if z < 0.5:
+        ops.append({'op': 'print', 's': '', 'end': ''})
+    elif z < 0.7:
+        ops.append({'op': 'land', 'ch': rng.choice(PLAIN)})
+    elif z < 0.85:
+        ops.append({'op': 'print', 's': _plain(rng, rng.randint(1, 20)), 'end': rng.choice(['', ';'])})
+    if rng.random() < 0.5:
+        ops.append({'op': 'print', 's': rng.choice(['', _plain(rng, rng.randint(1, 8))]), 'end': ''})
+    return ops
+
+
+def _editwrap_block(rng, hint):
+    """
+    Line editing on a long logical line (wrapped over several rows) that crosses the edge of a VIEW
+    PRINT window, or sits at the bottom of the screen: clear to end of line, delete, insert, Enter.
+    """
+    w = hint.width
+    ops = []
+    r0 = rng.randint(1, 22)
+    nrows = rng.choice([2, 3, 3, 4])
+    n = min(255, (nrows - 1) * w + rng.randint(1, w))
+    ops.append({'op': 'locate', 'r': r0, 'c': 1, 'cur': None})
+    ops.append({'op': 'printrep', 'ch': rng.choice(PLAIN), 'n': n, 'end': rng.choice(['', ';'])})
+    q = rng.random()
+    if q < 0.75:
+        # window edge inside the logical line, above it or below it
+        bt = max(1, min(24, r0 + rng.choice([-1, 0, 0, 1, 1, 2])))
+        a = rng.randint(1, bt)
+        if rng.random() < 0.3:
+            a = max(1, min(bt, r0 - rng.choice([0, 1, 3])))
+        ops.append({'op': 'viewprint', 'a': a, 'b': bt})
+        if rng.random() < 0.5:
+            ops.append({'op': 'locate', 'r': rng.randint(a, bt), 'c': rng.choice([1, rng.randint(1, w)]), 'cur': None})
+    keys = []
+    for _ in range(rng.randint(0, 5)):
+        keys.append(rng.choice('\x1f\x1f\x1f\x1e\x1c\x1d\x0e\x0b\x06\x02'))
+    for _ in range(rng.randint(1, 3)):
+        keys.append(rng.choice('\x1b\x05\x1b\x05\x7f\x08\x12x'))
+    if rng.random() < 0.3:
+        keys.append(_plain(rng, rng.randint(1, 6)))
+    keys = ''.join(keys)
+    if rng.random() < 0.5:
+        ops.append({'op': 'lineinput', 'prompt': _plain(rng, rng.randint(0, 4)), 'keys': keys})
+    else:
+        ops.append({'op': 'typed', 'keys': keys})
+    return ops
+
+
+def _breakin_op(rng, hint, tier):
+    """Ctrl+Break at a seeded poll inside / between the statements of something that takes a while."""
+    gm = hint.gm
+    w_, h_ = (gm[0], gm[1]) if gm else (640, 200)
+
+    def long_stmt():
+        q = rng.random()
+        if gm is not None and q < 0.45:
+            s = 'PAINT (%d,%d),%d' % (rng.randint(0, w_ - 1), rng.randint(0, h_ - 1), rng.choice([1, 2, 3, 1, 15]))
+            if rng.random() < 0.3:
+                s += ',%d' % rng.choice([1, 2, 3])
+            if rng.random() < 0.3:
+                s = 'CLS:' + s
+            return s
+        if gm is not None and q < 0.6:
+            return 'FOR I%%=0 TO %d:LINE (I%%*%d,I%%)-(I%%*%d+%d,%d),I%% MOD 4,BF:NEXT' % (
+                rng.randint(5, 30), rng.randint(1, 9), rng.randint(1, 9), rng.randint(5, w_ // 2), rng.randint(5, h_ - 1))
+        if gm is not None and q < 0.7:
+            return 'FOR I%%=1 TO %d:CIRCLE (%d+I%%*%d,%d),I%%*%d,I%% MOD 4:NEXT' % (
+                rng.randint(3, 15), rng.randint(0, w_ // 2), rng.randint(1, 12), rng.randint(0, h_ - 1), rng.randint(1, 9))
+        if gm is not None and q < 0.75:
+            return 'FOR I%%=1 TO %d:DRAW "U%dR%dD%dL%dBM+3,3":NEXT' % (rng.randint(3, 20), rng.randint(1, 60), rng.randint(1, 60),
+                                                                     rng.randint(1, 60), rng.randint(1, 60))
+        if q < 0.9:
+            return 'FOR I%%=1 TO %d:PRINT %s;I%%%s:NEXT' % (rng.randint(5, 40), strexpr(_plain(rng, rng.randint(0, 30))),
+                                                          rng.choice(['', ';', ',']))
+        return 'PRINT STRING$(255,"%s");STRING$(255,"%s")' % (rng.choice(PLAIN), rng.choice(PLAIN))
+    at = rng.choice([1, 2, 3, rng.randint(1, 12), rng.randint(1, 40), rng.randint(1, 120)])
+    q = rng.random()
+    if q < 0.5:
+        return {'op': 'breakin', 'lines': [], 'cmd': long_stmt(), 'at': at, 'cont': rng.random() < 0.15}
+    if q < 0.85:
+        lines = [long_stmt() for _ in range(rng.randint(1, 3))]
+        return {'op': 'breakin', 'lines': lines, 'cmd': 'RUN', 'at': at, 'cont': rng.random() < 0.6}
+    lines = ["REM " + _plain(rng, rng.randint(0, 40)) for _ in range(rng.randint(5, 35))]
+    return {'op': 'breakin', 'lines': lines, 'cmd': 'LIST', 'at': at, 'cont': False}
 
 
 def _viewprint_op(rng):
@@ -401,7 +520,12 @@ def _viewprint_op(rng):
 def _typed_op(rng, hint):
     parts = ["'"] if rng.random() < 0.7 else []
     for _ in range(rng.randint(1, 7)):
-        if rng.random() < 0.55:
+        z = rng.random()
+        if z < 0.08:
+            # something that reads as a number literal, blanks and all
+            parts.append(rng.choice(['&', '&O', '&o', '&H', '&h', '', '.', '1E', '1D']) +
+                         ''.join(rng.choice('0123456789  7AFx.+-') for _ in range(rng.randint(1, 6))))
+        elif z < 0.55:
             parts.append(_plain(rng, rng.randint(1, 12)))
         else:
             parts.append(''.join(rng.choice(EDIT_KEYS) for _ in range(rng.randint(1, 4))))
@@ -578,6 +702,15 @@ def gen(rng, tier, prop):
         elif rng.random() < 0.5:
             ops.append(_color_op(rng, hint))
         for _ in range(n):
+            z = rng.random()
+            if z < 0.035:
+                ops.extend(_editwrap_block(rng, hint))
+                continue
+            if z < 0.09:
+                if hint.gm is None and GMODES[hint.adapter] and rng.random() < 0.5:
+                    ops.append(_screen_op(rng, hint, want_gfx=True))
+                ops.append(_breakin_op(rng, hint, tier))
+                continue
             r = rng.random()
             if r < 0.34:
                 op = _print_op(rng, hint, dbcs=dbcs)
@@ -644,6 +777,9 @@ def gen(rng, tier, prop):
             ops.append({'op': 'key', 'v': 'OFF'})
         ops.append({'op': 'cls', 'arg': ''})
         for _ in range(n):
+            if rng.random() < 0.05:
+                ops.extend(_failed_stmt_block(rng, hint))
+                continue
             r = rng.random()
             if r < 0.36:
                 op = _print_op(rng, hint, plain_only=True)
@@ -738,7 +874,8 @@ def _view_op(rng, gm):
     else:
         x0, y0, x1, y1 = (_coord(rng, w), _coord(rng, h), _coord(rng, w), _coord(rng, h))
     return {'op': 'view', 'reset': False, 'screen': rng.random() < 0.35, 'x0': x0, 'y0': y0, 'x1': x1, 'y1': y1,
-            'fill': rng.choice([None, None, 0, 1, 2, 3, 15]), 'border': rng.choice([None, None, 1, 2, 3, 15])}
+            'fill': rng.choice([None, None, 0, 1, 2, 3, 15, 255, rng.choice([256, -1, 300])]),
+            'border': rng.choice([None, None, 1, 2, 3, 15, 255, rng.choice([256, -1, 1000])])}
 
 
 def _window_op(rng):
@@ -789,6 +926,15 @@ def simplify(cfg, ops):
                 yield cfg, ops[:i] + [dict(op, cs=None)] + ops[i + 1:]
         if k == 'locate' and op.get('cur') is not None:
             yield cfg, ops[:i] + [dict(op, cur=None)] + ops[i + 1:]
+        if k == 'breakin':
+            if op.get('cont'):
+                yield cfg, ops[:i] + [dict(op, cont=False)] + ops[i + 1:]
+            ls = op.get('lines') or []
+            if len(ls) > 1:
+                yield cfg, ops[:i] + [dict(op, lines=ls[:len(ls) // 2])] + ops[i + 1:]
+                yield cfg, ops[:i] + [dict(op, lines=ls[len(ls) // 2:])] + ops[i + 1:]
+            if op.get('at', 1) > 1:
+                yield cfg, ops[:i] + [dict(op, at=op['at'] - 1)] + ops[i + 1:]
         if k == 'pages':
             if op.get('n', 0) > 0:
                 yield cfg, ops[:i] + [dict(op, n=op['n'] - 1)] + ops[i + 1:]
@@ -1512,17 +1658,57 @@ def _h_locate(c, op):
     if op.get('cur') is not None:
         stmt += ',%d' % op['cur']
     stmt = stmt.rstrip(',') if (r_ is not None or c_ is not None or op.get('cur') is not None) else 'LOCATE 1,1'
-    res = _exec(c, stmt)
-    _scan_signals(c)
+    tm = c.tm
+    trapped = bool(op.get('trap')) and c.prop == 'C36'
+    if trapped:
+        # run the statement from a stored program with the error trapped: no message is printed, so
+        # "a failed statement changes nothing" can be judged and the placement model carries on
+        before = _cursor(c)
+        c.d.exec(b'NEW')
+        c.d.exec(b'10 E%=-2:L%=0:ON ERROR GOTO 30:' + b(stmt) + b':E%=-1')
+        c.d.exec(b'20 GOTO 40')
+        c.d.exec(b'30 E%=ERR:L%=ERL:RESUME 40')
+        c.d.exec(b'40 ON ERROR GOTO 0:END')
+        res = _exec(c, 'GOTO 10')
+        errcode = c.d.get(b'E%')
+        if _scan_signals(c) or res.err is not None or errcode == -2 or (errcode != -1 and c.d.get(b'L%') != 10):
+            c.run.probe('trapped program failed')
+            _resync_text(c)
+            return
+        res = FakeRes(None if errcode == -1 else errcode)
+    else:
+        res = _exec(c, stmt)
+        _scan_signals(c)
     if c.prop != 'C36':
         return
-    tm = c.tm
     rep = _cursor(c)
     c.compares += 1
     if res.err is not None:
         if res.err != 5:
             c.run.violate('C36', 'locate:error-other-than-5', '%r gave error %r' % (stmt, res.errs))
-        # the error message was printed on the screen
+        if trapped:
+            # nothing was printed: the cursor is where it was and the model is still valid
+            c.run.probe('failed LOCATE with the error trapped')
+            if rep != before:
+                c.run.violate('C36', 'locate:failed-locate-moved-cursor',
+                              '%r failed with error %r but CSRLIN,POS went from %r to %r' % (stmt, res.err, before, rep))
+                _resync_text(c)
+            return
+        # the error message was printed on the screen: ordinary output, which stays in the scroll area
+        if tm.cursor_known() and tm.top <= tm.row <= tm.bottom and tm.h is not None:
+            if not (tm.top <= rep[0] <= tm.bottom):
+                c.run.violate('C36', 'cursor:error-message-left-the-scroll-area',
+                              '%r failed with the cursor at row %d inside the scroll area %d-%d; after the error message '
+                              'CSRLIN,POS=%r' % (stmt, tm.row, tm.top, tm.bottom, rep))
+            if tm.grid is not None and _vis(c):
+                after = [b''.join(row) for row in c.d.chars()]
+                if len(after) == len(tm.grid):
+                    for y in list(range(0, tm.top - 1)) + list(range(tm.bottom, tm.h)):
+                        if after[y] != bytes(tm.grid[y]):
+                            c.run.violate('C36', 'placement:error-message-changed-row-outside-scroll-area',
+                                          '%r failed with the cursor at row %d, scroll area %d-%d; row %d changed from %r to %r' % (
+                                              stmt, tm.row, tm.top, tm.bottom, y + 1, bytes(tm.grid[y]), after[y]))
+                            break
         _resync_text(c)
         return
     outside = (r_ is not None and not 1 <= r_ <= tm.h) or (c_ is not None and not 1 <= c_ <= tm.w)
@@ -1747,6 +1933,43 @@ def _h_pages(c, op):
         _h_screen(c, {'m': None, 'cs': None, 'ap': op['ap'], 'vp': op.get('vp')})
 
 
+def _h_breakin(c, op):
+    """
+    Ctrl+Break through the input queue at a seeded poll while a (long) statement or a stored program
+    runs; optionally CONT.  What the display shows is compared with the engine state afterwards, as
+    after any other op.
+    """
+    w = c.w
+    armed = [True]
+
+    def fire(world):
+        if armed[0]:
+            armed[0] = False
+            world.inputs.pending.append(K.sig_break())
+            c.run.fault('break-in-statement')
+
+    lines = op.get('lines') or []
+    for i, line in enumerate(lines[:40]):
+        c.d.exec(b('%d %s' % (10 * (i + 1), line)))
+    cmd = op.get('cmd') or 'RUN'
+    w.at_poll(max(1, int(op.get('at', 1))), fire)
+    res = _exec(c, cmd, poll_cap=60000)
+    armed[0] = False
+    if res.err is None and b'Break' in res.out:
+        c.run.probe('statement interrupted by Break')
+    if op.get('cont'):
+        _exec(c, 'CONT', poll_cap=60000)
+    if lines:
+        c.d.exec(b'NEW')
+    mode_set = _scan_signals(c)
+    if mode_set:
+        c.text_mode = _peek_text_mode(c)
+        c.apage = c.vpage = None
+        c.av_same = False
+    if c.prop == 'C36':
+        _resync_text(c)
+
+
 def _run_with_keys(c, keys, fn, quit_at_prompt, poll_cap=8000):
     w = c.w
     f = KeyFeeder(c.d, keys, quit_at_prompt)
@@ -1885,6 +2108,8 @@ def _gfx_common(c, op, kind):
     c.d.exec(b'20 GOTO 40')
     c.d.exec(b'30 E%=ERR:RESUME 40')
     c.d.exec(b'40 ON ERROR GOTO 0:END')
+    # (read before the snapshots: should one of these fail, its message lands on the screen)
+    gstate0 = _gfx_state(c) if text_mode is False else None
     _scan_signals(c)
     before = _page_bytes(c)
     chars0 = c.d.chars()
@@ -1933,6 +2158,42 @@ def _gfx_common(c, op, kind):
         return
     # graphics mode
     ap, vp = c.apage, c.vpage
+    failed = errcode != -1
+    if failed and kind != 'draw':
+        # a failed statement leaves pixels, last point and coordinate mapping (viewport, window) as they
+        # were.  (DRAW runs its string command by command: what it drew before the faulty one stays.)
+        run.probe('failed graphics statement judged')
+        if changed:
+            run.violate('C30', 'failed-statement:changed-pixels:' + kind,
+                        '%r failed with error %r but changed pixels of page(s) %r' % (stmt, errcode, changed))
+        gstate1 = _gfx_state(c)
+        if gstate0 is not None and gstate1 is not None:
+            # (the statements that take a point may have moved the last point to a coordinate they had
+            # read before they failed - not stated either way; VIEW and WINDOW take no such point)
+            if gstate0[2:] != gstate1[2:]:
+                run.violate('C30', 'failed-statement:changed-coordinate-mapping:' + kind,
+                            '%r failed with error %r; (PMAP(0,2), PMAP(100,2), PMAP(0,3), PMAP(100,3)) went from %r to %r' % (
+                                stmt, errcode, gstate0[2:], gstate1[2:]))
+            elif kind in ('view', 'window') and gstate0[:2] != gstate1[:2]:
+                run.violate('C30', 'failed-statement:changed-last-point:' + kind,
+                            '%r failed with error %r; (POINT(0), POINT(1)) went from %r to %r' % (
+                                stmt, errcode, gstate0[:2], gstate1[:2]))
+    if kind == 'view' and not failed and not op.get('reset') and ap is not None and ap < len(before):
+        # VIEW draws its boxes with the viewport unset: the fill covers the new viewport, the border is
+        # the one-pixel frame around it; an attribute that is left out draws nothing
+        if op.get('fill') is None and op.get('border') is None:
+            run.probe('VIEW without fill and border')
+            if changed:
+                run.violate('C30', 'view:changed-pixels-without-fill-or-border',
+                            '%r changed pixels of page(s) %r' % (stmt, changed))
+        elif ap in changed:
+            bbox = _diff_bbox(before[ap], after[ap], width)
+            x0, x1 = sorted((op['x0'], op['x1']))
+            y0, y1 = sorted((op['y0'], op['y1']))
+            grow = 0 if op.get('border') is None else 1
+            if bbox[0] < x0 - grow or bbox[1] < y0 - grow or bbox[2] > x1 + grow or bbox[3] > y1 + grow:
+                run.violate('C30', 'view:box-drawn-outside-the-new-viewport-and-its-frame',
+                            '%r changed pixels in x %d..%d, y %d..%d on page %d' % (stmt, bbox[0], bbox[2], bbox[1], bbox[3], ap))
     if ap is not None:
         others = [i for i in changed if i != ap]
         if others:
@@ -1958,6 +2219,17 @@ def _gfx_common(c, op, kind):
     if res.err is not None and changed:
         run.probe('graphics statement failed after drawing')
     _update_viewport(c, op, kind, res)
+
+
+def _gfx_state(c):
+    """Last point (physical) and the world-to-physical mapping, through POINT(n) and PMAP."""
+    vals = []
+    for expr in (b'POINT(0)', b'POINT(1)', b'PMAP(0,2)', b'PMAP(100,2)', b'PMAP(0,3)', b'PMAP(100,3)'):
+        v = c.d.eval(expr)
+        if v is None:
+            return None
+        vals.append(v)
+    return tuple(vals)
 
 
 def _update_viewport(c, op, kind, res):
@@ -2016,6 +2288,6 @@ HANDLERS = {
     'print': _h_print, 'printrep': _h_printrep, 'scrollburst': _h_scrollburst, 'land': _h_land,
     'cls': _h_cls, 'color': _h_color, 'locate': _h_locate, 'viewprint': _h_viewprint, 'width': _h_width,
     'screen': _h_screen, 'pcopy': _h_pcopy, 'key': _h_key, 'keydef': _h_keydef, 'palette': _h_palette,
-    'drain': _h_drain, 'scrfn': _h_scrfn, 'pages': _h_pages, 'typed': _h_typed, 'lineinput': _h_lineinput,
+    'drain': _h_drain, 'scrfn': _h_scrfn, 'pages': _h_pages, 'breakin': _h_breakin, 'typed': _h_typed, 'lineinput': _h_lineinput,
     'view': _h_view, 'window': _h_window, 'get': _h_get, 'put': _h_put, 'gfx': _h_gfx,
 }
